@@ -26,6 +26,10 @@ const (
 )
 
 type mNode struct {
+	// Shared > 0: every module node with the same Shared id is built from one and
+	// the same []ModuleOption value (the caller reuses an options slice, spread
+	// with ...), instead of a fresh slice per NewModule call
+	Shared   int
 	Kind     int
 	Name     string
 	Children []*mNode
@@ -40,6 +44,9 @@ func (n *mNode) String() string {
 		var s []string
 		for _, c := range n.Children {
 			s = append(s, c.String())
+		}
+		if n.Shared > 0 {
+			return fmt.Sprintf("Module(%q){shared-slice#%d: %s}", n.Name, n.Shared, strings.Join(s, "; "))
 		}
 		return fmt.Sprintf("Module(%q){%s}", n.Name, strings.Join(s, "; "))
 	case mAdd:
@@ -201,6 +208,33 @@ func decodeModCase(tier string, idx int, tape *Tape) *modCase {
 			return &mNode{Kind: mNil}
 		}
 	}
+	if tape.Choose(StOps, 8) == 0 {
+		// reuse template: one options list (with nil entries) used for two sibling modules,
+		// with Remove entries for everything it adds in between
+		var kids []*mNode
+		nk := 2 + tape.Choose(StOps, 3)
+		for i := 0; i < nk; i++ {
+			if tape.Choose(StOps, 3) == 0 {
+				kids = append(kids, &mNode{Kind: mNil})
+			}
+			r := newReg()
+			r.Form, r.Name, r.Group, r.As, r.Deps = FSingle, "", "", nil, nil
+			r.Outs = r.Outs[:1]
+			r.Outs[0].T = r.Outs[0].Concrete
+			r.Outs[0].Key, r.Outs[0].Group = "", ""
+			kids = append(kids, &mNode{Kind: mAdd, Reg: r})
+		}
+		first := &mNode{Kind: mModule, Name: "first", Children: kids, Shared: 1}
+		second := &mNode{Kind: mModule, Name: "second", Children: kids, Shared: 1}
+		root := &mNode{Kind: mModule, Name: "root", Children: []*mNode{first}}
+		for _, k := range kids {
+			if k.Kind == mAdd {
+				root.Children = append(root.Children, &mNode{Kind: mRemove, Id: Ident{T: k.Reg.Outs[0].T}})
+			}
+		}
+		root.Children = append(root.Children, second)
+		c.Roots = append(c.Roots, root)
+	}
 	nroots := 1 + tape.Choose(StOps, 3)
 	for i := 0; i < nroots && budget > 0; i++ {
 		c.Roots = append(c.Roots, build(0))
@@ -282,10 +316,21 @@ func runModCase(c *modCase, tape *Tape, out *RunOut) []Violation {
 	B := &twin{h: newH(cfg, tape), coll: godi.NewCollection()}
 
 	// twin A: module tree
+	sharedKids := map[int][]godi.ModuleOption{}
 	var toOpt func(n *mNode) godi.ModuleOption
 	toOpt = func(n *mNode) godi.ModuleOption {
 		switch n.Kind {
 		case mModule:
+			if n.Shared > 0 {
+				kids, ok := sharedKids[n.Shared]
+				if !ok {
+					for _, ch := range n.Children {
+						kids = append(kids, toOpt(ch))
+					}
+					sharedKids[n.Shared] = kids
+				}
+				return godi.NewModule(n.Name, kids...) // the caller's slice, spread
+			}
 			var kids []godi.ModuleOption
 			for _, ch := range n.Children {
 				kids = append(kids, toOpt(ch))
